@@ -84,7 +84,7 @@ func init() {
 			select {
 			case e := <-done:
 				return e, true
-			case <-time.After(3 * time.Second):
+			case <-time.After(wd(3 * time.Second)):
 				return nil, false
 			}
 		}
@@ -113,7 +113,7 @@ func init() {
 				// decoder must be called again within 2 s of a successful Start (also after restarts)
 				before := atomic.LoadInt64(&decodedN)
 				alive := false
-				for w := 0; w < 400; w++ {
+				for w := 0; w < int(400*tscale); w++ {
 					if atomic.LoadInt64(&decodedN) > before {
 						alive = true
 						break
@@ -210,7 +210,7 @@ func init() {
 		select {
 		case <-done:
 			t.S("stopok")
-		case <-time.After(5 * time.Second):
+		case <-time.After(wd(5 * time.Second)):
 			t.S("stopHANG")
 		}
 		r, d := atomic.LoadInt64(&reads), atomic.LoadInt64(&decodedN)
